@@ -958,7 +958,7 @@ static const yytype_int16 yyrline[] =
     2392,  2402,  2417,  2416,  2429,  2430,  2435,  2468,  2493,  2549,
     2556,  2562,  2568,  2578,  2582,  2590,  2602,  2616,  2623,  2630,
     2655,  2667,  2679,  2691,  2706,  2718,  2733,  2776,  2797,  2832,
-    2867,  2901,  2926,  2943,  2953,  2963,  2973,  2983,  3003,  3023
+    2867,  2901,  2932,  2954,  2964,  2974,  2984,  2994,  3014,  3034
 };
 #endif
 
@@ -5102,7 +5102,13 @@ yyreduce:
         {
           if ((yyvsp[0].expression).value.integer != 0)
           {
-            (yyval.expression).value.integer = OPERATION(/, (yyvsp[-2].expression).value.integer, (yyvsp[0].expression).value.integer);
+            // INT64_MIN / -1 overflows and raises SIGFPE; the result is
+            // undefined, exactly as OP_INT_DIV does at scan time.
+            if ((yyvsp[-2].expression).value.integer == INT64_MIN && (yyvsp[0].expression).value.integer == -1)
+              (yyval.expression).value.integer = YR_UNDEFINED;
+            else
+              (yyval.expression).value.integer = OPERATION(/, (yyvsp[-2].expression).value.integer, (yyvsp[0].expression).value.integer);
+
             (yyval.expression).type = EXPRESSION_TYPE_INTEGER;
           }
           else
@@ -5117,11 +5123,11 @@ yyreduce:
 
         fail_if_error(result);
       }
-#line 5121 "libyara/grammar.c"
+#line 5127 "libyara/grammar.c"
     break;
 
   case 162: /* primary_expression: primary_expression '%' primary_expression  */
-#line 2927 "libyara/grammar.y"
+#line 2933 "libyara/grammar.y"
       {
         check_type((yyvsp[-2].expression), EXPRESSION_TYPE_INTEGER, "%");
         check_type((yyvsp[0].expression), EXPRESSION_TYPE_INTEGER, "%");
@@ -5130,7 +5136,12 @@ yyreduce:
 
         if ((yyvsp[0].expression).value.integer != 0)
         {
-          (yyval.expression).value.integer = OPERATION(%, (yyvsp[-2].expression).value.integer, (yyvsp[0].expression).value.integer);
+          // INT64_MIN % -1 overflows and raises SIGFPE, see OP_MOD.
+          if ((yyvsp[-2].expression).value.integer == INT64_MIN && (yyvsp[0].expression).value.integer == -1)
+            (yyval.expression).value.integer = YR_UNDEFINED;
+          else
+            (yyval.expression).value.integer = OPERATION(%, (yyvsp[-2].expression).value.integer, (yyvsp[0].expression).value.integer);
+
           (yyval.expression).type = EXPRESSION_TYPE_INTEGER;
         }
         else
@@ -5138,11 +5149,11 @@ yyreduce:
           fail_if_error(ERROR_DIVISION_BY_ZERO);
         }
       }
-#line 5142 "libyara/grammar.c"
+#line 5153 "libyara/grammar.c"
     break;
 
   case 163: /* primary_expression: primary_expression '^' primary_expression  */
-#line 2944 "libyara/grammar.y"
+#line 2955 "libyara/grammar.y"
       {
         check_type((yyvsp[-2].expression), EXPRESSION_TYPE_INTEGER, "^");
         check_type((yyvsp[0].expression), EXPRESSION_TYPE_INTEGER, "^");
@@ -5152,11 +5163,11 @@ yyreduce:
         (yyval.expression).type = EXPRESSION_TYPE_INTEGER;
         (yyval.expression).value.integer = OPERATION(^, (yyvsp[-2].expression).value.integer, (yyvsp[0].expression).value.integer);
       }
-#line 5156 "libyara/grammar.c"
+#line 5167 "libyara/grammar.c"
     break;
 
   case 164: /* primary_expression: primary_expression '&' primary_expression  */
-#line 2954 "libyara/grammar.y"
+#line 2965 "libyara/grammar.y"
       {
         check_type((yyvsp[-2].expression), EXPRESSION_TYPE_INTEGER, "^");
         check_type((yyvsp[0].expression), EXPRESSION_TYPE_INTEGER, "^");
@@ -5166,11 +5177,11 @@ yyreduce:
         (yyval.expression).type = EXPRESSION_TYPE_INTEGER;
         (yyval.expression).value.integer = OPERATION(&, (yyvsp[-2].expression).value.integer, (yyvsp[0].expression).value.integer);
       }
-#line 5170 "libyara/grammar.c"
+#line 5181 "libyara/grammar.c"
     break;
 
   case 165: /* primary_expression: primary_expression '|' primary_expression  */
-#line 2964 "libyara/grammar.y"
+#line 2975 "libyara/grammar.y"
       {
         check_type((yyvsp[-2].expression), EXPRESSION_TYPE_INTEGER, "|");
         check_type((yyvsp[0].expression), EXPRESSION_TYPE_INTEGER, "|");
@@ -5180,11 +5191,11 @@ yyreduce:
         (yyval.expression).type = EXPRESSION_TYPE_INTEGER;
         (yyval.expression).value.integer = OPERATION(|, (yyvsp[-2].expression).value.integer, (yyvsp[0].expression).value.integer);
       }
-#line 5184 "libyara/grammar.c"
+#line 5195 "libyara/grammar.c"
     break;
 
   case 166: /* primary_expression: '~' primary_expression  */
-#line 2974 "libyara/grammar.y"
+#line 2985 "libyara/grammar.y"
       {
         check_type((yyvsp[0].expression), EXPRESSION_TYPE_INTEGER, "~");
 
@@ -5194,11 +5205,11 @@ yyreduce:
         (yyval.expression).value.integer = ((yyvsp[0].expression).value.integer == YR_UNDEFINED) ?
             YR_UNDEFINED : ~((yyvsp[0].expression).value.integer);
       }
-#line 5198 "libyara/grammar.c"
+#line 5209 "libyara/grammar.c"
     break;
 
   case 167: /* primary_expression: primary_expression "<<" primary_expression  */
-#line 2984 "libyara/grammar.y"
+#line 2995 "libyara/grammar.y"
       {
         int result;
 
@@ -5218,11 +5229,11 @@ yyreduce:
 
         fail_if_error(result);
       }
-#line 5222 "libyara/grammar.c"
+#line 5233 "libyara/grammar.c"
     break;
 
   case 168: /* primary_expression: primary_expression ">>" primary_expression  */
-#line 3004 "libyara/grammar.y"
+#line 3015 "libyara/grammar.y"
       {
         int result;
 
@@ -5242,19 +5253,19 @@ yyreduce:
 
         fail_if_error(result);
       }
-#line 5246 "libyara/grammar.c"
+#line 5257 "libyara/grammar.c"
     break;
 
   case 169: /* primary_expression: regexp  */
-#line 3024 "libyara/grammar.y"
+#line 3035 "libyara/grammar.y"
       {
         (yyval.expression) = (yyvsp[0].expression);
       }
-#line 5254 "libyara/grammar.c"
+#line 5265 "libyara/grammar.c"
     break;
 
 
-#line 5258 "libyara/grammar.c"
+#line 5269 "libyara/grammar.c"
 
       default: break;
     }
@@ -5478,5 +5489,5 @@ yyreturnlab:
   return yyresult;
 }
 
-#line 3029 "libyara/grammar.y"
+#line 3040 "libyara/grammar.y"
 
